@@ -144,7 +144,7 @@ class C18(Property):
         ]
         graphs = corpus + [gen_graph(rng, k) for k in range(n)]
         lines, meta = [], []
-        for status_case in pmap(provk.run_case, graphs, timeout=120, workers=6):
+        for status_case in pmap(provk.run_case, graphs, timeout=900, workers=6):
             case, status, real = status_case
             if status != "ok":
                 ctx.fail("build_graph:" + status, f"graph {case['idx']}: {str(real)[:300]}", {"graph": case})
